@@ -751,10 +751,7 @@ fn exec_call(b: &Built, t: usize, ci: usize, ca: &ProgItem, key: &mut Option<Thr
 				std::process::exit(2);
 			}
 			// a panic raised by the library itself (e.g. a killed lock)
-			sched::log(format!(
-				"{{\"e\":\"ret\",\"t\":{},\"ci\":{},\"res\":\"libpanic\"}}",
-				t, ci
-			));
+			ret(t, ci, "libpanic");
 		}
 	}
 	sched::log(format!(
